@@ -71,6 +71,11 @@ func checkC05(c *Ctx) {
 	// iterators that are abandoned before they are exhausted keep their store lock (C17.scan-complete)
 	c.includeKeys("iter-nesting", "C17", rulesIn("C17.guards"), func(rule, key string) bool { return strings.Contains(key, "scan-complete") })
 
+	// a reported event whose handler fails "fails on its own": the event cursor moves past it whatever the
+	// handler returns, otherwise the same event is applied again in every block and nothing after it is ever
+	// processed (C03's ordering clause: nonce bumped and record marked before the handler runs)
+	c.include("contain", "C03", rulesIn("C03.accepted-first"))
+
 	// ---- iter-nesting ---------------------------------------------------------------------
 	regions := p.Regions(live)
 	nReg := 0
@@ -298,6 +303,87 @@ func checkC05(c *Ctx) {
 		}
 	}
 
+	// ---- jail-once: staking's Jail panics for a validator that is already jailed.  A call in block processing
+	// is guarded by "not jailed" read from the staking keeper inside every loop that surrounds the call: a
+	// snapshot taken before the loops does not see the jailing done by an earlier iteration ---------------------
+	nJail := 0
+	for _, f := range sortedFuncs(blockReach) {
+		if p.L.IsGenerated(f.Pos()) || !p.IsModule(f) {
+			continue
+		}
+		var sccs [][]*ssa.BasicBlock
+		ana.Calls(f, func(site ssa.CallInstruction, d ana.CalleeDesc) {
+			if d.Name != "Jail" || !d.Iface {
+				return
+			}
+			nJail++
+			in := site.(ssa.Instruction)
+			if sccs == nil {
+				sccs = blockSCCs(f)
+			}
+			var recvs []ssa.Value
+			notJailed := ana.AtomCallBool(func(call *ssa.Call, cd ana.CalleeDesc) bool {
+				if cd.Name != "IsJailed" {
+					return false
+				}
+				if call.Call.IsInvoke() {
+					recvs = append(recvs, call.Call.Value)
+				} else if len(call.Call.Args) > 0 {
+					recvs = append(recvs, call.Call.Args[0])
+				}
+				return true
+			}, false)
+			if !ana.Guarded(in, notJailed) {
+				r.Bad("C05.contain", "jail-once:"+fname(f), c.pos(in), "StakingKeeper.Jail is called in block processing without a 'not yet jailed' test: jailing a jailed validator panics and halts the chain")
+				return
+			}
+			inLoops := func(b *ssa.BasicBlock) map[int]bool {
+				out := map[int]bool{}
+				for i, scc := range sccs {
+					for _, x := range scc {
+						if x == b {
+							out[i] = true
+						}
+					}
+				}
+				return out
+			}
+			jl := inLoops(in.Block())
+			fresh := false
+			for _, rv := range recvs {
+				for lab, vals := range p.Leaves(rv, ana.PVOpt{Opaque: func(ana.CalleeDesc) bool { return true }}).Vals {
+					if !strings.HasPrefix(lab, "call:") {
+						continue
+					}
+					for _, v := range vals {
+						call, ok := v.(*ssa.Call)
+						if !ok || call.Parent() != f {
+							continue
+						}
+						cl := inLoops(call.Block())
+						all := true
+						for i := range jl {
+							if !cl[i] {
+								all = false
+							}
+						}
+						if all {
+							fresh = true
+						}
+					}
+				}
+			}
+			r.Check(fresh || len(jl) == 0, "C05.contain", "jail-once:"+fname(f), c.pos(in), "the 'not jailed' test reads the validator inside the loops around the Jail call",
+				"the 'not jailed' test before StakingKeeper.Jail reads a validator that was fetched before the surrounding loops: a validator that is jailed by one iteration is jailed again by a later one (two unsigned outgoing txs in one pass), which panics inside end-block processing")
+		})
+	}
+	r.Analysed["jail_sites_in_block_processing"] = nJail
+
+	// ---- placeholder messages: block processing builds incomplete messages (only the epoch set) to address the
+	// attestation of an epoch.  Accessors of the message types that panic for a message failing ValidateBasic
+	// (GetClaimer, GetSigners) must not be applied to such a value outside a recover boundary ----------------
+	c.checkPlaceholderAccessors(blockReach)
+
 	// ---- inventory (evidence only) ------------------------------------------------------------------
 	nInv := 0
 	for _, f := range sortedFuncs(blockReach) {
@@ -504,4 +590,162 @@ func iteratorReleased(f *ssa.Function, create ssa.Instruction, iterVal ssa.Value
 		return false, "unreleased exit: " + bad
 	}
 	return true, ""
+}
+
+// checkPlaceholderAccessors follows message literals built by block-processing code through direct argument
+// passing and reports calls of panicking accessors on them that no recover boundary contains.
+func (c *Ctx) checkPlaceholderAccessors(blockReach map[*ssa.Function]bool) {
+	p, r := c.P, c.R
+	// methods (by receiver type name and method name) whose body has an explicit panic
+	panics := map[string]bool{}
+	for _, f := range p.Funcs {
+		if f.Signature.Recv() == nil || f.Blocks == nil || !(inPkg(f, "oracle/types") || inPkg(f, "mhub2/types")) {
+			continue
+		}
+		has := false
+		ana.Instrs(f, func(in ssa.Instruction) {
+			if _, ok := in.(*ssa.Panic); ok {
+				has = true
+			}
+		})
+		if has {
+			if n := ana.NamedOf(f.Signature.Recv().Type()); n != nil {
+				panics[n.Obj().Name()+"."+f.Name()] = true
+			}
+		}
+	}
+	// the address fields a type's ValidateBasic parses: an empty one always fails
+	reqCache := map[string][]string{}
+	required := func(tname string) []string {
+		if v, ok := reqCache[tname]; ok {
+			return v
+		}
+		var out []string
+		for _, f := range p.Funcs {
+			if f.Name() != "ValidateBasic" || f.Signature.Recv() == nil {
+				continue
+			}
+			if n := ana.NamedOf(f.Signature.Recv().Type()); n == nil || n.Obj().Name() != tname {
+				continue
+			}
+			ana.Calls(f, func(site ssa.CallInstruction, d ana.CalleeDesc) {
+				if !strings.HasSuffix(d.Name, "FromBech32") || len(site.Common().Args) == 0 {
+					return
+				}
+				for _, fl := range p.Leaves(site.Common().Args[0], ana.PVOpt{}).Fields() {
+					if strings.HasPrefix(fl, tname+".") {
+						out = append(out, strings.TrimPrefix(fl, tname+"."))
+					}
+				}
+			})
+		}
+		reqCache[tname] = out
+		return out
+	}
+	type flow struct {
+		fn        *ssa.Function
+		v         ssa.Value
+		tname     string
+		contained bool
+		origin    string
+	}
+	var work []flow
+	nLit := 0
+	for _, f := range sortedFuncs(blockReach) {
+		if p.L.IsGenerated(f.Pos()) || !p.IsModule(f) {
+			continue
+		}
+		for _, a := range allocsIn(f) {
+			n := ana.NamedOf(a.Type())
+			if n == nil || a.Comment != "complit" {
+				continue
+			}
+			any := false
+			for k := range panics {
+				if strings.HasPrefix(k, n.Obj().Name()+".") {
+					any = true
+				}
+			}
+			if !any {
+				continue
+			}
+			// incomplete: an address field that ValidateBasic parses is left empty
+			missing := ""
+			fs := ana.FieldStores(a)
+			for _, fld := range required(n.Obj().Name()) {
+				if len(fs[fld]) == 0 {
+					missing = fld
+				}
+			}
+			if missing == "" {
+				continue
+			}
+			nLit++
+			work = append(work, flow{f, a, n.Obj().Name(), false, c.pos(a)})
+		}
+	}
+	seen := map[string]bool{}
+	containedAt := func(f *ssa.Function, in ssa.Instruction) bool {
+		for _, d := range hasRecoverBoundary(f) {
+			if (d.Block() == in.Block() && ana.InstrIndex(d) < ana.InstrIndex(in)) || (d.Block() != in.Block() && d.Block().Dominates(in.Block())) {
+				return true
+			}
+		}
+		return false
+	}
+	nBad := 0
+	for len(work) > 0 {
+		w := work[len(work)-1]
+		work = work[:len(work)-1]
+		key := fname(w.fn) + "|" + w.v.Name() + "|" + w.tname + sprintf("|%v", w.contained)
+		if seen[key] || len(seen) > 400 {
+			continue
+		}
+		seen[key] = true
+		refs := w.v.Referrers()
+		if refs == nil {
+			continue
+		}
+		for _, ref := range *refs {
+			switch x := ref.(type) {
+			case *ssa.MakeInterface:
+				work = append(work, flow{w.fn, x, w.tname, w.contained, w.origin})
+			case *ssa.ChangeInterface:
+				work = append(work, flow{w.fn, x, w.tname, w.contained, w.origin})
+			case *ssa.Phi:
+				work = append(work, flow{w.fn, x, w.tname, w.contained, w.origin})
+			case ssa.CallInstruction:
+				cc := x.Common()
+				in := x.(ssa.Instruction)
+				cont := w.contained || containedAt(w.fn, in)
+				if cc.IsInvoke() && cc.Value == w.v {
+					if panics[w.tname+"."+cc.Method.Name()] && !cont {
+						nBad++
+						r.Bad("C05.contain", "placeholder:"+fname(w.fn)+":"+cc.Method.Name(), c.pos(in), "block processing calls "+cc.Method.Name()+" on the incomplete "+w.tname+" built at "+w.origin+" (only its epoch is set): the accessor panics for a message that fails ValidateBasic, outside every recover boundary, and the chain halts at the epoch boundary")
+					}
+					continue
+				}
+				if callee := cc.StaticCallee(); callee != nil && len(cc.Args) > 0 && cc.Args[0] == w.v && callee.Signature.Recv() != nil {
+					if panics[w.tname+"."+callee.Name()] && !cont {
+						nBad++
+						r.Bad("C05.contain", "placeholder:"+fname(w.fn)+":"+callee.Name(), c.pos(in), "block processing calls "+callee.Name()+" on the incomplete "+w.tname+" built at "+w.origin+": the accessor panics for a message that fails ValidateBasic, outside every recover boundary")
+					}
+				}
+				for _, callee := range p.Callees(x) {
+					args := cc.Args
+					if cc.IsInvoke() {
+						args = append([]ssa.Value{cc.Value}, args...)
+					}
+					for i, a := range args {
+						if a == w.v && i < len(callee.Params) && callee.Blocks != nil {
+							work = append(work, flow{callee, callee.Params[i], w.tname, cont, w.origin})
+						}
+					}
+				}
+			}
+		}
+	}
+	if nLit > 0 && nBad == 0 {
+		r.Ok("C05.contain", "placeholder", "-", sprintf("%d incomplete message literal(s) built by block processing; no panicking accessor is applied to them outside a recover boundary", nLit))
+	}
 }
